@@ -135,7 +135,7 @@ UNIT = dict(
            'kbq.in_valid.spec': dict(src='replay_region.cpp'), 'kbq.not_in_valid.spec': dict(src='replay_region.cpp'),
            'kbq.push.reject': dict(src='replay_seq.cpp', fixed={'op': 0}), 'kbq.push.stores': dict(src='replay_seq.cpp', fixed={'op': 0}),
            'kbq.pop.empty': dict(src='replay_seq.cpp', fixed={'op': 1}), 'kbq.pop.oldest_segment': dict(src='replay_seq.cpp', fixed={'op': 1}), 'kbq.pop.k_oldest': dict(src='replay_seq.cpp', fixed={'op': 1}),
-           # schedule replay (no inputs): needs the guarded hooks of units/kbq/hooks.diff in the tree that is replayed
-           'kbq.push.commit': dict(src='native_commit_order.cpp', no_inputs=True)},
+           # schedule replay (no inputs): native_f12 + native_commit_order; the second needs the extra schedule point of units/kbq/hook_committed.diff
+           'kbq.push.commit': dict(src='replay_commit.cpp', no_inputs=True)},
   loop_obligation={'PUSH': 'kbq.push.validate', 'POP': 'kbq.pop.validate'},
 )
